@@ -14,7 +14,7 @@ import types
 from .values import sig
 from .driver import make_exc
 
-ASYNC_FLAVOURS = ("agen", "aclass", "aclass_noclose", "aplain", "agenlike", "aeager", "aeagerstop", "aproxy", "areiter", "alateclose", "agencoro", "aclass_awaitable")
+ASYNC_FLAVOURS = ("agen", "aclass", "aclass_noclose", "aplain", "agenlike", "aeager", "aeagerstop", "aproxy", "areiter", "alateclose", "agencoro", "aclass_awaitable", "aclass_cm")
 SYNC_FLAVOURS = ("list", "seq", "iter", "tuple", "tuplesub", "reiter", "sgen", "ringlist", "range", "iter_noasync", "iter_hint0", "iter_awaitable")
 SRC_FLAVOURS = ASYNC_FLAVOURS + SYNC_FLAVOURS
 FN_FLAVOURS = ("def", "async", "partial", "obj", "objaw", "falsyobj", "eqobj", "unhashobj", "aeqobj", "gencoro", "classaw", "defcoro", "eagercoro", "fwddef", "fwdcoro")
@@ -374,6 +374,19 @@ class AAwaitableSource(AClassSource):
         yield  # pragma: no cover
 
 
+class ACMSource(AClassSource):
+    """a class based async iterator that ALSO is an async context manager (a connection / file-like object) - handed
+    over as an iterator, never entered: whoever owns it closes it with ``aclose``, the manager protocol is not used"""
+
+    async def __aenter__(self):
+        self.ctx.ev("wrong-protocol", self.name, "aenter")
+        return self
+
+    async def __aexit__(self, *exc):
+        self.ctx.ev("wrong-protocol", self.name, "aexit")
+        return False
+
+
 class ALateCloseSource(AClassSource):
     """a stream that is opened by its first pull: only from then on does it have an ``aclose`` at all"""
 
@@ -650,6 +663,7 @@ _SRC_CLASSES = {
     "iter_noasync": SyncNoAsyncSource,
     "iter_awaitable": SyncAwaitableSource,
     "aclass_awaitable": AAwaitableSource,
+    "aclass_cm": ACMSource,
     "iter_hint0": SyncHintSource,
     "iter": SyncSource,
 }
